@@ -260,6 +260,9 @@ func runWorker(specFile string) int {
 
 // ---------- parent ----------
 
+// emitRepeats: extra native runs of the second witness of a path-invariant counterexample.
+const emitRepeats = 8
+
 type cexRecord struct {
 	Harness string
 	Case    int
@@ -858,6 +861,11 @@ func finish(p *propertySpec, tier string, seed int64, results []*harnessResult, 
 		if c.Cex.Kind == "emit" {
 			ws[len(ws)-1].Isolate = true
 			ws = append(ws, witness{ID: fmt.Sprintf("cex%db", i), Harness: c.Harness, Case: c.Case, Assignment: c.Other, Isolate: true})
+			// the native run cannot be forced into a map iteration order or a schedule: the other
+			// witness is run several more times, any run that emits a different value reproduces it
+			for k := 0; k < emitRepeats; k++ {
+				ws = append(ws, witness{ID: fmt.Sprintf("cex%db%d", i, k), Harness: c.Harness, Case: c.Case, Assignment: c.Other, Isolate: true})
+			}
 		}
 	}
 	for i, s := range samples {
@@ -949,6 +957,11 @@ func finish(p *propertySpec, tier string, seed int64, results []*harnessResult, 
 					rb := nres[fmt.Sprintf("cex%db", i)]
 					if rb != nil && r.Emits[c.EmitKey] != rb.Emits[c.EmitKey] {
 						reproduced[i] = true
+					}
+					for k := 0; k < emitRepeats && !reproduced[i]; k++ {
+						if rk := nres[fmt.Sprintf("cex%db%d", i, k)]; rk != nil && r.Emits[c.EmitKey] != rk.Emits[c.EmitKey] {
+							reproduced[i] = true
+						}
 					}
 				}
 				if !reproduced[i] {
